@@ -90,7 +90,8 @@ Print Assumptions c12_only_useful_genes.
 (* a parent with no pair to discriminate gets no marker (and the loop makes no choice).
    HONEST LABEL: this is about the MODEL of _run_selection on an empty taxonomy_idx_array; the real
    _run_selection raises there (ValueError: zero-size array to reduction operation minimum, in
-   _stats_from_marker_counts - Example ex_python_raises_on_no_pairs below records the run).  The [] of
+   _stats_from_marker_counts; part (D) of harness/props/c12_downsample.py makes that call on every run
+   and publishes the outcome as run_selection_on_no_pairs).  The [] of
    the pipeline comes from the short-circuit `if len(leaves) == 0` of select_all_markers /
    _marker_selection_worker, which is modelled by select_parent: c12_parent_short_circuit and
    c12_parent_run_has_pairs (the loop is only ever entered with pairs <> []) in the block at the end
@@ -472,7 +473,7 @@ Example ex_parent_idx :
   leaf_pairs ex_tree None = [(0, 2); (1, 2)]%Z /\
   parent_idx ex_rm ex_tree None true = Some [1; 2] /\
   parent_idx ex_rm ex_tree (Some (0, 10%Z)) true = Some [0] /\
-  parent_idx ex_rm ex_tree (Some (0, 11%Z)) true = Some [] /\
+  parent_idx ex_rm ex_tree (Some (0, 11%Z)) true = Some [] /\        (* a file that lacks the pair (1,2): RuntimeError *)
   parent_idx {| rm_genes := rm_genes ex_rm; rm_pairs := firstn 2 (rm_pairs ex_rm) |} ex_tree None true = None.
 Proof. vm_compute. repeat split; reflexivity. Qed.
 (* the downsampled array of the root: gene 24 is not in the query (thinning renumbers 25 to 4), the two
